@@ -672,6 +672,26 @@ def rule_value_identity(db: ProgramDB) -> List[Instance]:
                             f"{'equal' if result else 'unequal'}: equality no longer is identity of the identifier (which the hash is), so two distinct objects "
                             f"that compare equal (dataclasses with eq=True, equal strings in two fields) are one value for the cache coverage test and the "
                             f"duplicate suppression - rows are answered from another object's cache entry or dropped as duplicates", line=m.lineno))
+    # where identifiers come from: the identity of the wrapped object (or an identifier it carries), never a function of its value
+    pi = hv.methods.get("__post_init__")
+    if pi is None:
+        raise AnalysisError("HashedValue.__post_init__ not found")
+    n_src = 0
+    for a in own_nodes(pi.node):
+        if isinstance(a, ast.Assign) and any(isinstance(t, ast.Attribute) and t.attr == "id_" and isinstance(t.value, ast.Name) and t.value.id == "self" for t in a.targets):
+            n_src += 1
+            v = a.value
+            by_identity = (isinstance(v, ast.Call) and dotted(v.func) == "id" and len(v.args) == 1) or \
+                (isinstance(v, ast.Attribute) and v.attr in ("id_", "_id_"))
+            by_value = any(isinstance(c, ast.Call) and dotted(c.func) in ("hash", "repr", "str") for c in ast.walk(v))
+            out.append(inst("VALUE-IDENTITY", HOLDS if by_identity else (VIOLATION if by_value else UNDECIDED), pi, f"HashedValue.__post_init__[{unparse(a)[:40]}]",
+                            "the identifier is the identity of the wrapped object or an identifier it carries" if by_identity else
+                            (f"`{unparse(a)}` derives the identifier from the VALUE: hash() is not injective (hash(-1) == hash(-2), hash(1) == hash(True) == hash(1.0)), so "
+                             f"two different elements of one flattened collection are one value for the result caches and the duplicate suppression - "
+                             f"and_(r < 0, r != -1) over [-1, -2] returns (s, -1), or_(r > 5, r < 0) loses rows" if by_value else
+                             f"`{unparse(a)}`: source of the identifier not in the accepted table"), line=a.lineno))
+    if n_src == 0:
+        raise AnalysisError("HashedValue.__post_init__: no assignment of the identifier found")
     out.append(inst("VALUE-IDENTITY", HOLDS if hashed_by_id else VIOLATION, h, "HashedValue.__hash__[the identifier]",
                     "the hash is the hash of the identifier" if hashed_by_id else "the hash is not derived from the identifier alone", line=h.lineno))
     return out
